@@ -221,11 +221,11 @@ def evaluate(parsed, gres, want_closed=True):
             d_lo = toks[dec.blocks[lo_b].tok].atts[lo_s][1]
             d_hi = toks[dec.blocks[hi_b].tok].atts[hi_s][1]
             if isinstance(lo_e, Stoch) and lo_e.right.symbol:
-                want = BD(lo_e.right.symbol, lo_e.right.id, None, lo_e.right.order)
+                want = BD(lo_e.right.symbol, lo_e.right.id, None, d_lo.order)  # the terminal fixes symbol and id, not the bond order
                 if not want.compatible(d_lo):
                     out.append(("C06", "right_terminal", f"hand-over out of element {min(a, b)} used {d_lo.text(False)}, right terminal is {lo_e.right.text(False)}", {}))
             if isinstance(hi_e, Stoch) and hi_e.left.symbol:
-                want = BD(hi_e.left.symbol, hi_e.left.id, None, hi_e.left.order)
+                want = BD(hi_e.left.symbol, hi_e.left.id, None, d_hi.order)
                 if not want.compatible(d_hi):
                     out.append(("C06", "left_terminal", f"hand-over into element {max(a, b)} used {d_hi.text(False)}, left terminal is {hi_e.left.text(False)}", {}))
     # ---------------------------------------------------------------- C07: stopping rule per stochastic object
